@@ -43,3 +43,9 @@ package stdlib_contracts
 //@ requires z != nil && b != nil
 //@ modifies *z
 //@ ensures bigval(b) >= 0 ==> u256(*z) == bigval(b) % two256()
+
+//@ func (*Int).GtUint64
+//@ assumed
+//@ pure
+//@ requires z != nil
+//@ ensures result == (u256(*z) > n)
